@@ -17,6 +17,7 @@ import (
 	"sync"
 	"time"
 
+	"github.com/iancoleman/strcase"
 	"github.com/pentops/j5/gen/j5/client/v1/client_j5pb"
 	"github.com/pentops/j5/gen/j5/schema/v1/schema_j5pb"
 	"github.com/pentops/j5/internal/j5client"
@@ -38,7 +39,7 @@ import (
 //   R <result line>      canonical result, ends the op
 // ---------------------------------------------------------------------------------------------
 
-const stageTimeout = 10 * time.Second
+const stageTimeout = 60 * time.Second // generous: the sandbox is shared, runaway recursion ends by stack overflow long before
 
 type sink struct{ w *bufio.Writer }
 
@@ -185,7 +186,20 @@ func runChain(out *sink, op string, validateOnly bool) string {
 	// direct route: linked descriptors -> image
 	ok := run("image", func() (err error) { co.image, err = imageDirect(spec.Pkg, co.files); return })
 	ok = ok && run("api", func() (err error) { co.api, err = structure.APIFromImage(co.image); return })
-	ok = ok && run("client", func() (err error) { co.client, err = j5client.APIFromSource(co.api); return })
+	if ok {
+		out.stage("client")
+		r := stage(stageTimeout, func() (err error) { co.client, err = j5client.APIFromSource(co.api); return })
+		if r.class != "ok" {
+			ok, failed = false, "client"
+			if bad := Expect(spec).BadDefault; bad != "" && r.class == "err" && classify(r.detail) == "list-enum-default" {
+				// the declaration itself names a default filter that is no option of the enum; the compiler accepted it
+				out.fail("client:err:list-enum-default", "list method reaches "+bad+": "+r.detail)
+				out.count("pkg.bad-enum-default")
+				return "fail client"
+			}
+			out.fail(r.sig("client"), r.detail)
+		}
+	}
 	if ok {
 		run("json", func() (err error) {
 			co.clientJS, err = clientJSON(co.client)
@@ -207,8 +221,9 @@ func runChain(out *sink, op string, validateOnly bool) string {
 	}
 
 	// production route: print the generated files as .proto text and read them back
+	// (only when route (a) went through: its failure is already reported, and there is nothing to compare with)
 	var pimg chainOut
-	pok := true
+	pok := ok
 	prun := func(name string, f func() error) {
 		if !pok {
 			return
@@ -231,9 +246,13 @@ func runChain(out *sink, op string, validateOnly bool) string {
 		sort.SliceStable(b.Packages, func(i, j int) bool { return b.Packages[i].Name < b.Packages[j].Name })
 		if !proto.Equal(a, b) {
 			sa, sb := Actual(spec.Pkg, a), Actual(spec.Pkg, b)
-			if sa.String() != sb.String() {
+			switch {
+			case shadowedName(spec) != "":
+				// protoprint's relative type names do not look at enclosing scopes (print cluster's finding)
+				out.fail("printed-client:differs-from-direct:shadowed-name", "inline field hoisted as "+shadowedName(spec)+", which is also a declared schema\n"+firstDiff(a, b))
+			case sa.String() != sb.String():
 				out.fail("printed-client:differs-from-direct:summary", "direct:  "+sa.String()+"\nprinted: "+sb.String())
-			} else {
+			default:
 				out.fail("printed-client:differs-from-direct:schemas", "client APIs differ below the summary level\n"+firstDiff(a, b))
 			}
 		}
@@ -269,6 +288,22 @@ func runChain(out *sink, op string, validateOnly bool) string {
 	return "ok " + act.String() + " T:" + csv(topics, "-")
 }
 
+// shadowedName: a declared schema whose name is also the hoisted name of an inline field of some
+// declared object or oneof ("" when there is none).
+func shadowedName(s *Spec) string {
+	for _, sc := range s.Schemas {
+		for _, p := range sc.Props {
+			if k := leaf(p.T).K; k == "IO" || k == "IU" || k == "IE" {
+				if n := strcase.ToCamel(p.Name); s.schema(n) != nil {
+					out := sc.Name + "." + n
+					return out
+				}
+			}
+		}
+	}
+	return ""
+}
+
 func firstDiff(a, b proto.Message) string {
 	mo := prototext.MarshalOptions{Multiline: true}
 	la, lb := strings.Split(mo.Format(a), "\n"), strings.Split(mo.Format(b), "\n")
@@ -298,6 +333,9 @@ func describe(out *sink, s *Spec) {
 	out.count(fmt.Sprintf("pkg.services=%d", len(s.Services)))
 	if s.Extra > 0 {
 		out.count("pkg.two-source-files")
+	}
+	if shadowedName(s) != "" {
+		out.count("pkg.shadowed-name")
 	}
 	if len(s.Topics) > 0 {
 		out.count("pkg.with-topics")
